@@ -78,6 +78,7 @@ def pmap(fn, items: list, limit: float = 20.0, workers: int | None = None, chunk
     next_i = 0
     ws = [_W(ctx, fn) for _ in range(workers)]
     remaining = n
+    died_once: set[int] = set()
 
     def feed(w: _W):
         nonlocal next_i
@@ -113,13 +114,18 @@ def pmap(fn, items: list, limit: float = 20.0, workers: int | None = None, chunk
                             w.done_in_batch += 1
                             w.t_item = time.time()
                     except (EOFError, OSError):
-                        # worker died (crash in C code): the item it was on is lost
+                        # worker died (crash in C code, or killed from outside, e.g. under memory pressure): the item it was on is tried
+                        # once more in a fresh worker; dying on the same item twice is reported
                         start, size = w.batch
                         bad = start + w.done_in_batch
-                        if bad < start + size and results[bad] is None:
-                            results[bad] = {"_error": "worker process died on this case"}
-                            remaining -= 1
-                        rest = (bad + 1, start + size - bad - 1)
+                        if bad < start + size and results[bad] is None and bad not in died_once:
+                            died_once.add(bad)
+                            rest = (bad, start + size - bad)
+                        else:
+                            if bad < start + size and results[bad] is None:
+                                results[bad] = {"_error": "worker process died on this case (twice)"}
+                                remaining -= 1
+                            rest = (bad + 1, start + size - bad - 1)
                         w.kill()
                         nw = _W(ctx, fn)
                         ws[ws.index(w)] = nw
